@@ -29,6 +29,7 @@ def gen_sequence(rng, idx):
     rough = level == 2 and rng.random() < 0.2      # arbitrary floats under specified noise: short sequences only
     if rough:
         n = min(n, 8)
+    tiny_sd = level == 2 and rng.random() < 0.2     # reported SDs far below sqrt(eps): a target on a 1e-9 output scale
     alphabet = [[rng.choice([-1.0, -0.5, 0.0, 0.25, 0.5, 1.0]) for _ in range(rng.choice([2, 3]))] for _ in range(D)]
     ops, pts = [], []
     for _ in range(n):
@@ -53,6 +54,8 @@ def gen_sequence(rng, idx):
             # exact-arithmetic friendly values: merges stay small rationals in the model
             y = rng.choice([rng.randint(-40, 40) / 8.0, float(rng.randint(-3, 3))])
             sd = rng.choice([0.25, 0.5, 1.0, 2.0, 4.0])
+            if tiny_sd:
+                sd = rng.choice([2.0 ** -30, 2.0 ** -28, 2.0 ** -35])
         else:
             y = rng.choice([rng.uniform(-5, 5), float(rng.randint(-3, 3)), 0.1, 1e-3 * rng.random()])
             sd = rng.choice([0.5, 1.0, 2.0, 0.1, rng.uniform(0.05, 3)])
